@@ -14,7 +14,7 @@ from analysis.mir import leaves, calls_in, show, walk, short
 from rules import dir_shared as ds, c01
 
 EXPLANATION = __doc__
-FLOOR = 17
+FLOOR = 18
 
 
 def run(ctx):
@@ -142,6 +142,21 @@ def walk_rules(ctx):
                              access_path(dict(e[3])['value']) == 'node.hash') for ev, c in pushes)
     ctx.ob('C04.W.leaf', 'RF-GUARD', ok3, h.path, where, 'a changed leaf is emitted as inserted {label, hash}' if ok3 else 'leaf emission changed',
            key='RF-GUARD|C04.W.leaf')
+    # a changed interior node is descended on BOTH sides: from the non-leaf side of the leaf decision no Ok return is
+    # reachable without passing the dispatch on node.left_child and the dispatch on node.right_child (seeded change
+    # C04-r3-a returned early when there is no left child — the root of a young directory may have only a right one)
+    okb = False
+    det = 'no leaf decision / child dispatches found'
+    if leaf and leaf[0]['false'] is not None:
+        sides = {}
+        for side in ('left_child', 'right_child'):
+            sides[side] = [v['block'] for v in variant_edges(h, lambda x, side=side: access_path(x) == 'node.' + side)]
+        if all(sides.values()):
+            skipped = [side for side, blks in sides.items() if h.exits((leaf[0]['false'], 0), avoid_blocks=blks) - {'Err', 'Diverge'}]
+            okb = not skipped
+            det = 'both child dispatches lie on every Ok path of the interior-node branch' if okb else \
+                'an Ok return of the interior-node branch is reachable without looking at node.%s' % ', node.'.join(skipped)
+    ctx.ob('C04.W.both_children', 'RF-ORDER', okb, h.path, where, det, key='RF-ORDER|C04.W.both_children')
     # children fetched as of latest_epoch, recursion with the same range
     rec = [c for ev in h.events() for c in ev['calls'] if isinstance(c, tuple) and c[0] == 'call' and call_is(c, 'get_append_only_proof_helper')]
     clos = prog.children(h.path)
